@@ -30,6 +30,8 @@ import (
 
 	g "github.com/zenon-network/go-zenon/chain/genesis/mock"
 	"github.com/zenon-network/go-zenon/chain/nom"
+	"github.com/zenon-network/go-zenon/common/types"
+	"github.com/zenon-network/go-zenon/vm/embedded/definition"
 
 	"math/rand"
 
@@ -43,10 +45,15 @@ func init() {
 		c08Victim(dir, os.Getenv("VERIF_C08_SOURCE_DIR"))
 		os.Exit(0)
 	}
+	// grand-child mode: a follower that commits the momentum at which a spork becomes enforced (see c08SporkCommit)
+	if dir := os.Getenv("VERIF_C08_SPORK_DIR"); dir != "" {
+		c08SporkVictim(dir, os.Getenv("VERIF_C08_SPORK_FILE"), os.Getenv("VERIF_C08_SPORK_IMPLEMENTED"))
+		os.Exit(0)
+	}
 	fw.Register(&fw.Check{
 		ID:    "C08",
 		Level: "fault_enumeration",
-		Rule: "operations = commits of real momentums (empty, 1..100 account blocks, contract batches, the genesis insert) and single-momentum rollbacks on real nodes; for each operation EVERY journal-record boundary " +
+		Rule: "operations = commits of real momentums (empty, 1..100 account blocks, contract batches, the genesis insert, the momentum at which a spork becomes enforced — on a node that implements it and on one that does not and halts) and single- and multi-momentum rollbacks on real nodes; for each operation EVERY journal-record boundary " +
 			"and one cut inside every record is turned into a crash image, reopened with the real code and compared raw with the states before/after, then continued; kill:* cases SIGKILL a real process mid-run. " +
 			"distinct_nontrivial counts distinct crash images (operation kind, momentum size class, record index, cut position class) that reopened and were compared",
 		Cases:       c08Cases,
@@ -70,6 +77,13 @@ func c08Cases(tier string, seed int64) []string {
 		l = append(l, fmt.Sprintf("images:%d", i))
 	}
 	l = append(l, "images:genesis")
+	ns := 2
+	if tier == "thorough" {
+		ns = 48
+	}
+	for i := 0; i < ns; i++ {
+		l = append(l, fmt.Sprintf("images:spork:%d", i))
+	}
 	for i := 0; i < k; i++ {
 		l = append(l, fmt.Sprintf("kill:%d", i))
 	}
@@ -79,6 +93,10 @@ func c08Cases(tier string, seed int64) []string {
 func c08Run(c *fw.C, caseID string) {
 	if strings.HasPrefix(caseID, "kill:") {
 		c08Kill(c, caseID)
+		return
+	}
+	if strings.HasPrefix(caseID, "images:spork:") {
+		c08SporkCommit(c, caseID)
 		return
 	}
 	c08Images(c, caseID)
@@ -770,4 +788,176 @@ func c08Kill(c *fw.C, caseID string) {
 	if diffs := simnet.DiffDumps(refs[top], final, 4); len(diffs) > 0 {
 		c.Violation("continuation-after-kill-differs", map[string]interface{}{"diffs": diffs})
 	}
+}
+
+// ---------------------------------------------------------------------------
+// the commit at which a spork becomes enforced
+//
+// That commit is special: after the store write the node looks at the active sporks and, when it does not implement
+// one of them, prints the upgrade notice and terminates itself (os.Exit(2)) — so the node has to live in a process of
+// its own. The grand-child syncs up to the momentum before the enforcement height, copies its directory (S0), commits
+// the enforcing momentum and (if it is still alive) stops; what it leaves is S1. Every journal record boundary between
+// the two is a crash point as for any other commit; the images are reopened by "the upgraded binary" (this process,
+// with the spork id registered as implemented), which is how an operator continues after that halt.
+
+func c08SporkVictim(dir, file, implemented string) {
+	simnet.Setup()
+	if implemented != "" {
+		types.ImplementedSporksMap[types.HexToHashPanic(implemented)] = true
+	}
+	batches, err := c17ReadMomentums(file)
+	if err != nil || len(batches) < 2 {
+		fmt.Println("C08:ERR chain file", err)
+		os.Exit(3)
+	}
+	F := simnet.Open("spork-victim", dir, simnet.MockGenesis(), nil)
+	if _, err := F.InsertChain(batches[:len(batches)-1]); err != nil {
+		fmt.Println("C08:ERR sync", err)
+		os.Exit(3)
+	}
+	if err := c08copyDir(dir, dir+".S0"); err != nil {
+		fmt.Println("C08:ERR copy", err)
+		os.Exit(3)
+	}
+	fmt.Println("C08:S0", F.Height())
+	_ = os.Stdout.Sync()
+	if _, err := F.InsertChain(batches[len(batches)-1:]); err != nil {
+		fmt.Println("C08:ERR commit", err)
+		os.Exit(3)
+	}
+	// alive: this node implements the spork. Leave without closing LevelDB (the journal is what the crash model reads)
+	fmt.Println("C08:ALIVE", F.Height())
+	os.Exit(0)
+}
+
+func c08SporkCommit(c *fw.C, caseID string) {
+	r := c.Rand(caseID)
+	var idx int
+	fmt.Sscanf(caseID, "images:spork:%d", &idx)
+	implements := idx%2 == 1
+	base := c.ScratchDir("c08spork")
+	defer os.RemoveAll(base)
+	P := simnet.Open("P", base+"/P", simnet.MockGenesis(), g.PillarKeys)
+	defer P.Stop()
+	w := simnet.NewWorkload(rand.New(rand.NewSource(r.Int63())), P)
+	step := func(blocks int) bool {
+		for i := 0; i < blocks; i++ {
+			w.One()
+		}
+		if _, err := P.Produce(0); err != nil {
+			c.Inconclusive("producer: " + err.Error())
+			return false
+		}
+		return true
+	}
+	call := func(data []byte) (types.Hash, bool) {
+		blk, err := P.Submit(&nom.AccountBlock{BlockType: nom.BlockTypeUserSend, Address: g.Spork.Address, ToAddress: types.SporkContract, Data: data}, g.Spork)
+		if err != nil {
+			c.Inconclusive("spork call refused: " + err.Error())
+			return types.Hash{}, false
+		}
+		return blk.Hash, true
+	}
+	for i := 0; i < 2+r.Intn(6); i++ {
+		if !step(r.Intn(4)) {
+			return
+		}
+	}
+	id, ok := call(definition.ABISpork.PackMethodPanic(definition.SporkCreateMethodName, "c08-spork", "enforced during a monitored commit"))
+	if !ok {
+		return
+	}
+	// the producer implements it (process-wide table; removed again when the case ends)
+	types.ImplementedSporksMap[id] = true
+	defer delete(types.ImplementedSporksMap, id)
+	for i := 0; i < 1+r.Intn(3); i++ {
+		if !step(r.Intn(3)) {
+			return
+		}
+	}
+	if _, ok := call(definition.ABISpork.PackMethodPanic(definition.SporkActivateMethodName, id)); !ok {
+		return
+	}
+	E := uint64(0)
+	for guard := 0; guard < 80; guard++ {
+		burst := r.Intn(3)
+		if E != 0 && P.Height()+1 == E {
+			burst = []int{0, 2, 14, 60}[r.Intn(4)] // the enforcing momentum itself carries a seeded number of blocks
+		}
+		if !step(burst) {
+			return
+		}
+		if E == 0 {
+			if sporks, err := c17ReadSporks(P); err == nil {
+				if sp := sporks[id]; sp != nil && sp.Activated {
+					E = sp.E
+				}
+			}
+		}
+		if E != 0 && P.Height() >= E {
+			break
+		}
+	}
+	if E == 0 || P.Height() != E {
+		c.Inconclusive(fmt.Sprintf("producer did not stop exactly at the enforcement height (E=%d, height=%d)", E, P.Height()))
+		return
+	}
+	file := base + "/chain.bin"
+	if err := c17WriteMomentums(file, P.Range(2, E)); err != nil {
+		c.Inconclusive(err.Error())
+		return
+	}
+	dir := base + "/F"
+	cmd := exec.Command(os.Args[0])
+	impl := ""
+	if implements {
+		impl = id.String()
+	}
+	cmd.Env = append(os.Environ(), "VERIF_C08_SPORK_DIR="+dir, "VERIF_C08_SPORK_FILE="+file, "VERIF_C08_SPORK_IMPLEMENTED="+impl)
+	var out bytes.Buffer
+	cmd.Stdout, cmd.Stderr = &out, &out
+	if err := cmd.Start(); err != nil {
+		c.Inconclusive(err.Error())
+		return
+	}
+	done := make(chan error, 1)
+	go func() { done <- cmd.Wait() }()
+	var werr error
+	select {
+	case werr = <-done:
+	case <-time.After(5 * time.Minute): // watchdog only
+		_ = cmd.Process.Kill()
+		<-done
+		c.Inconclusive("grand-child watchdog fired")
+		return
+	}
+	code := 0
+	if ee, ok := werr.(*exec.ExitError); ok {
+		code = ee.ExitCode()
+	} else if werr != nil {
+		c.Inconclusive(werr.Error())
+		return
+	}
+	text := out.String()
+	tail := text
+	if len(tail) > 600 {
+		tail = tail[len(tail)-600:]
+	}
+	if !strings.Contains(text, "C08:S0") || strings.Contains(text, "C08:ERR") {
+		c.Inconclusive(fmt.Sprintf("grand-child did not reach the monitored commit: exit=%d %q", code, tail))
+		return
+	}
+	alive := strings.Contains(text, "C08:ALIVE")
+	kind := "commit-enforcing-implemented-spork"
+	if !implements {
+		kind = "commit-enforcing-unimplemented-spork"
+		// whether the node halts, and how, is C17's business; here only the store matters
+		c.SetAdd("node_without_the_spork_after_the_commit", fmt.Sprintf("alive=%v exit=%d", alive, code))
+	} else if !alive {
+		c.Inconclusive(fmt.Sprintf("the node that implements the spork did not survive the commit: exit=%d %q", code, tail))
+		return
+	}
+	last := simnet.CloneBatch(P.Range(E, E))
+	c08CheckOp(c, base, 100+idx, kind, len(last[0].AccountBlocks), dir+".S0", dir, last, last, P, E)
+	c.Count("spork_enforcing_commits_monitored", 1)
 }
